@@ -219,7 +219,7 @@ func (u *PtrUnifier) Match(exp, obs *D) error {
 
 func mintD(t *Type, id int, src string) *D {
 	switch t.Kind {
-	case KLeaf, KInt:
+	case KLeaf, KInt, KBasic:
 		return &D{K: 'L', ID: id}
 	case KIface:
 		return &D{K: 'I', ID: id}
@@ -242,7 +242,7 @@ func mintD(t *Type, id int, src string) *D {
 
 func zeroD(t *Type) *D {
 	switch t.Kind {
-	case KLeaf, KInt:
+	case KLeaf, KInt, KBasic:
 		return &D{K: 'L', ID: 0}
 	case KIface, KPtr:
 		return &D{K: 'N'}
